@@ -174,7 +174,7 @@ class FaultSched(Scheduling):
 def write_files(sc, d):
     for i, wf in enumerate(sc['wfs']):
         g = nx.DiGraph()
-        for n, (comp, data) in wf['nodes'].items():
+        for (n, comp, data) in wf['nodes']:
             if data is None:
                 g.add_node(int(n), comp=comp)
             else:
@@ -271,6 +271,17 @@ def exc_site(e):
     return (type(c).__name__, fr.name, os.path.basename(fr.filename))
 
 
+class WallTimeout(BaseException):
+    """Raised by SIGALRM inside a run that makes no simulated progress."""
+
+
+def _alarm(signum, frame):
+    raise WallTimeout()
+
+
+HANG_LIMIT_S = float(os.environ.get('VERIF_HANG_S', 20))
+
+
 class Result(object):
     def __init__(self):
         self.status = None          # 'ok' | 'budget' | 'exc'
@@ -309,6 +320,14 @@ def run_scenario(sc, d, oracle_cls=None, pauses=None, monitor=None, budget=None,
         sim, fs = build(sc, d, env, monitor)
         orc = (oracle_cls or _or.Oracle)(sc, sim, env, fs, res)
         env.hooks = orc
+        import signal
+        import threading
+        use_alarm = threading.current_thread() is threading.main_thread()
+        if use_alarm:
+            old_handler = signal.signal(signal.SIGALRM, _alarm)
+            # periodic: SimPy absorbs the first exception into a failed process and carries on with the
+            # next event of the instant, which may spin as well
+            signal.setitimer(signal.ITIMER_REAL, HANG_LIMIT_S, HANG_LIMIT_S / 4)
         try:
             segs = list(pauses if pauses is not None else f.get('pauses') or [])
             if segs:
@@ -332,10 +351,20 @@ def run_scenario(sc, d, oracle_cls=None, pauses=None, monitor=None, budget=None,
             res.status = 'ok'
         except BudgetExceeded:
             res.status = 'budget'
+        except WallTimeout as e:
+            res.status = 'hang'
+            tb = traceback.extract_tb(e.__traceback__)
+            fr = [x for x in tb if '/topsim/' in x.filename]
+            res.exc = ('WallTimeout', fr[-1].name if fr else '?', os.path.basename(fr[-1].filename) if fr else '?',
+                       'no return after %.0f s of wall time at simulated t=%s' % (HANG_LIMIT_S, env.now))
         except Exception as e:      # noqa
             res.status = 'exc'
             site = exc_site(e)
             res.exc = site + (str(e.__cause__ or e)[:120],)
+        finally:
+            if use_alarm:
+                signal.setitimer(signal.ITIMER_REAL, 0)
+                signal.signal(signal.SIGALRM, old_handler)
         res.T = env.now
         res.nevents = env.nevents
         res.digest = env.digest()
